@@ -206,6 +206,32 @@ fn sched(args: &[String]) {
     writeln!(out, "{}", json!({"shard_done": shard})).unwrap();
 }
 
+/// reqseq --in <ndjson> --out <ndjson> [--shard i --of n] [--threads k]: C11 request histories
+fn reqseq(args: &[String]) {
+    let input = arg(args, "--in").expect("--in");
+    let output = arg(args, "--out").expect("--out");
+    let shard: usize = arg(args, "--shard").map(|s| s.parse().unwrap()).unwrap_or(0);
+    let of: usize = arg(args, "--of").map(|s| s.parse().unwrap()).unwrap_or(1);
+    let skip: usize = arg(args, "--skip").map(|s| s.parse().unwrap()).unwrap_or(0);
+    let cfg = cfg_from_args(args);
+    let f = std::io::BufReader::new(std::fs::File::open(&input).expect("open input"));
+    let mut out = std::fs::OpenOptions::new().create(true).append(true).open(&output).expect("open output");
+    for (i, line) in f.lines().enumerate() {
+        let line = line.unwrap();
+        if i % of != shard || i < skip {
+            continue;
+        }
+        let h: lvh::reqs::ReqHist = serde_json::from_str(&line).expect("request history json");
+        writeln!(out, "{}", json!({"idx": i, "begin": true})).unwrap();
+        out.flush().unwrap();
+        let mut r = lvh::reqs::run(&h, &cfg);
+        r["idx"] = json!(i);
+        writeln!(out, "{}", r).unwrap();
+        out.flush().unwrap();
+    }
+    writeln!(out, "{}", json!({"shard_done": shard})).unwrap();
+}
+
 fn main() {
     lvh::util::quiet_panics();
     let args: Vec<String> = std::env::args().collect();
@@ -215,6 +241,7 @@ fn main() {
         Some("crashimg") => crashimg(&args[2..]),
         Some("record-hist") => record_hist(&args[2..]),
         Some("sched") => sched(&args[2..]),
+        Some("reqseq") => reqseq(&args[2..]),
         Some("record-stress") => record_stress(&args[2..]),
         _ => {
             eprintln!("usage: lvh <replay-hist> ...");
